@@ -33,7 +33,7 @@ Next ==
          /\ Steps[i].fam \in Fams
          /\ d # "plain" => nd < MaxDeco
          \* channel steps block when their branch is skipped or repeated: only straight-line placements
-         /\ Steps[i].fam = "chan" => d \in {"plain", "helper", "killafter"}
+         /\ Steps[i].fam \in {"chan", "conc"} => d \in {"plain", "helper", "killafter"}
          /\ chain' = Append(chain, <<Steps[i].name, d>>)
          /\ ts' = Steps[i].tout
          /\ nd' = IF d = "plain" THEN nd ELSE nd + 1
